@@ -262,6 +262,9 @@ class App(object):
             if w.dims and lay == 'fine':
                 layer['dimensions'] = {'time': {'values': list(w.dims), 'default': w.dim_default}}
             layers.append(layer)
+        if w.source != 'tile':
+            # a layer fed by the WMS source itself (no cache in between): limits have to hold for it as well
+            layers.append({'name': 'direct', 'title': 'direct', 'sources': ['sfine']})
         wmts = {'restful': True, 'kvp': True}
         if w.dims:
             wmts['restful_template'] = '/{Layer}/{TileMatrixSet}/{Time}/{TileMatrix}/{TileCol}/{TileRow}.{Format}'
@@ -353,9 +356,12 @@ class App(object):
             res = w.res[r['L']]
             x0 = w.bbox[0] + r['px'] * res
             y0 = w.bbox[1] + r['py'] * res
+            layers = ','.join(r['ls'])
+            if r.get('direct') and w.source != 'tile':
+                layers = 'direct'
             return ('/service?SERVICE=WMS&REQUEST=GetMap&VERSION=1.1.1&STYLES=&SRS=%s&FORMAT=image/png&TRANSPARENT=true'
-                    '&LAYERS=%s&BBOX=%d,%d,%d,%d&WIDTH=%d&HEIGHT=%d' % (
-                        self.srs, ','.join(r['ls']), x0, y0, x0 + r['pw'] * res, y0 + r['ph'] * res, r['pw'], r['ph']))
+                    '&LAYERS=%s&BBOX=%d,%d,%d,%d&WIDTH=%d&HEIGHT=%d%s' % (
+                        self.srs, layers, x0, y0, x0 + r['pw'] * res, y0 + r['ph'] * res, r['pw'], r['ph'], r.get('vendor', '')))
         f = r['f']
         z, x, y = tok_text(r['z']), tok_text(r['x']), tok_text(r['y'])
         fmt, d = r['fmt'], r['d']
@@ -688,7 +694,13 @@ def random_request(rng, w):
             ph = max(1, w.pixel_limit // pw + rng.choice([0, 0, 1]))
         px = rng.choice([-tw, -tw // 2, 0, tw // 2, tw, rng.randrange(0, max(1, wpx)) // 2 * 2, wpx - tw, wpx - tw // 2, wpx])
         py = rng.choice([-th, -th // 2, 0, th // 2, th, rng.randrange(0, max(1, hpx)) // 2 * 2, hpx - th, hpx - th // 2, hpx])
-        return {'kind': 'map', 'ls': ls, 'L': L, 'px': px, 'py': py, 'pw': pw, 'ph': ph}
+        req = {'kind': 'map', 'ls': ls, 'L': L, 'px': px, 'py': py, 'pw': pw, 'ph': ph}
+        if w.pixel_limit and pw * ph > w.pixel_limit and rng.random() < 0.6:
+            # above the pixel limit: refused whatever vendor parameters come along and whatever kind of layer is asked
+            # (the model decides this before it looks at the layers)
+            req['vendor'] = rng.choice(['&TILED=true', '&tiled=TRUE', '&TILED=false', '&TILED=true&DPI=300', '&EXCEPTIONS=application/vnd.ogc.se_xml'])
+            req['direct'] = rng.random() < 0.6
+        return req
     f = rng.choice(FLAVOURS)
     k = rng.random()
     if k < 0.72:
@@ -729,6 +741,8 @@ def record_trace(w, app, reqs):
             e = dict(req, ev='tile', z=tok_json(req['z']), x=tok_json(req['x']), y=tok_json(req['y']))
         else:
             e = dict(req, ev='map')
+            e.pop('vendor', None)
+            e.pop('direct', None)
         e.pop('kind')
         events.append(e)
         obs = app.request(req)
